@@ -23,13 +23,13 @@
    a sub-kustomization; the directory name of a kustomization is carried as an uninterpreted label ([PDir name])
    so that relocation can be stated (PIPE_relocate); no function reads it.
 
-   Out of scope (absent from the syntax; other properties cover them): patches (SMP, JSON-6902), images, replicas,
+   Out of scope (absent from the syntax; other properties cover them): patches (SMP, JSON-6902),
    replacements, vars, components, `configurations:`/`crds:`, helm, external plugins, `immutable`, file /
-   env sources and binary (non UTF-8) values of generators, `buildMetadata`, custom openapi schemas, `kind: List`
+   loading itself (the content of env files and file sources comes with the entry), `buildMetadata`, custom openapi schemas, `kind: List`
    documents, documents that already carry internal.config.kubernetes.io
    build annotations.  Definitions only; proofs are in Res/PipelineProofs.v. *)
 From KV Require Export Res.BuildRefs.
-From KV Require Res.Labels Res.LabelsDefaults Res.Namespace Res.Hygiene Res.Generators Res.LegacySort.
+From KV Require Res.Labels Res.LabelsDefaults Res.Namespace Res.Hygiene Res.Generators Res.LegacySort Res.Replica Res.Image.
 From KV Require Export Gen.FieldSpecs Gen.NameRefRules Gen.NsScope Gen.TransformerOrder.
 From KV Require Gen.LegacyOrder.
 Local Open Scope string_scope.
@@ -38,8 +38,9 @@ Definition pairs := list (string * string).
 
 (* ---------- syntax ---------- *)
 
-(* one configMapGenerator / secretGenerator entry (literal sources only) *)
-Record pgen := mkPGen {
+(* one configMapGenerator / secretGenerator entry; the content of env files and file sources is supplied with the
+   entry (the loader itself is C05's / C06's concern) *)
+Record pgen := mkPGenX {
   pg_name : string;
   pg_ns : string;
   pg_behavior : string;               (* behavior: "" | create | replace | merge *)
@@ -48,8 +49,14 @@ Record pgen := mkPGen {
   pg_has_opts : bool;                 (* options: present *)
   pg_labels : pairs;                  (* options.labels (unique keys) *)
   pg_annos : pairs;                   (* options.annotations *)
-  pg_disable_hash : bool              (* options.disableNameSuffixHash *)
+  pg_disable_hash : bool;             (* options.disableNameSuffixHash *)
+  pg_envs : list string;              (* envs: the CONTENT of each env file, in order *)
+  pg_files : list (string * string)   (* files: (source spec "key=path" | "path", content of the file) *)
 }.
+
+(* an entry with literal sources only *)
+Definition mkPGen name ns beh lits ty ho labels annos dh : pgen :=
+  mkPGenX name ns beh lits ty ho labels annos dh [] [].
 
 (* generatorOptions: of a kustomization file *)
 Record pgopts := mkPGopts {
@@ -59,7 +66,7 @@ Record pgopts := mkPGopts {
 }.
 
 (* the directives of one kustomization file *)
-Record pdirs := mkPDirsG {
+Record pdirs := mkPDirsX {
   pd_ns : string;                             (* namespace: *)
   pd_prefix : string;                         (* namePrefix: *)
   pd_suffix : string;                         (* nameSuffix: *)
@@ -68,10 +75,13 @@ Record pdirs := mkPDirsG {
   pd_common_annos : pairs;                    (* commonAnnotations: *)
   pd_cmgens : list pgen;                      (* configMapGenerator: *)
   pd_secgens : list pgen;                     (* secretGenerator: *)
-  pd_genopts : option pgopts                  (* generatorOptions: (None: absent) *)
+  pd_genopts : option pgopts;                 (* generatorOptions: (None: absent) *)
+  pd_replicas : list Replica.replica;         (* replicas: (name, count as decimal text) *)
+  pd_images : list Image.image                (* images: *)
 }.
 
-(* a kustomization file without generatorOptions *)
+(* a kustomization file without replicas / images, and without generatorOptions *)
+Definition mkPDirsG ns p s l cl ca cm sec go : pdirs := mkPDirsX ns p s l cl ca cm sec go [] [].
 Definition mkPDirs ns p s l cl ca cm sec : pdirs := mkPDirsG ns p s l cl ca cm sec None.
 
 Inductive ptree :=
@@ -98,10 +108,10 @@ Definition pipe_rules : res (list nbr) :=
 (* the builtin transformers this model implements; the others of the generated order have no directive
    in the syntax and are therefore never configured *)
 Definition modelled_transformers : list string :=
-  ["NamespaceTransformer"; "PrefixTransformer"; "SuffixTransformer"; "LabelTransformer"; "AnnotationsTransformer"].
+  ["NamespaceTransformer"; "PrefixTransformer"; "SuffixTransformer"; "LabelTransformer"; "AnnotationsTransformer";
+   "ReplicaCountTransformer"; "ImageTagTransformer"].
 Definition unmodelled_transformers : list string :=
-  ["PatchStrategicMergeTransformer"; "PatchTransformer"; "PatchJson6902Transformer"; "ReplicaCountTransformer";
-   "ImageTagTransformer"; "ReplacementTransformer"].
+  ["PatchStrategicMergeTransformer"; "PatchTransformer"; "PatchJson6902Transformer"; "ReplacementTransformer"].
 
 (* obligation Gen_transformer_order_known: every element of the generated order is classified, no repeats *)
 Definition transformer_order_known_b : bool :=
@@ -135,12 +145,20 @@ Section Pipeline.
 
   Definition str_node (v : string) : node := Scalar TStr SPlain v.
 
-  (* RNode.LoadMapIntoConfigMapData / LoadMapIntoSecretData: sorted keys *)
+  (* RNode.LoadMapIntoConfigMapData / LoadMapIntoSecretData: sorted keys; a ConfigMap value that is not valid
+     UTF-8 goes to binaryData, base64 encoded; every Secret value goes to data, base64 encoded *)
+  Definition map_field (name : string) (m : Generators.dict) : list (string * node) :=
+    match m with
+    | [] => []
+    | _ => [(name, Map (map (fun kv => (fst kv, str_node (snd kv))) m))]
+    end.
   Definition data_field (secret : bool) (m : Generators.dict) : list (string * node) :=
-    match m, secret with
-    | [], false => []          (* ConfigMap: the field is only created by the first entry *)
-    | _, _ => [("data", Map (map (fun kv => (fst kv, str_node (if secret then Hash.encode_base64 (snd kv) else snd kv))) m))]
-    end.                       (* Secret: LookupCreate(MappingNode, data) comes first: `data: {}` for no entry *)
+    if secret then
+      (* LookupCreate(MappingNode, data) comes first: `data: {}` for no entry *)
+      [("data", Map (map (fun kv => (fst kv, str_node (Hash.encode_base64 (snd kv)))) m))]
+    else
+      let '(d, b) := Generators.split_data m in
+      (map_field "data" d ++ map_field "binaryData" b)%list.
 
   Definition meta_map_field (name : string) (l : pairs) : list (string * node) :=
     match l with
@@ -148,12 +166,19 @@ Section Pipeline.
     | _ => [(name, Map (map (fun kv => (fst kv, str_node (snd kv))) (Labels.sort_pairs l)))]
     end.
 
-  (* generators.MakeConfigMap / MakeSecret for literal sources (makeBaseNode, type, data, copyLabelsAndAnnotations) *)
+  (* api/kv loader: env files first, then literals, then files (the key of a file source is given or the base name) *)
+  Definition gen_pairs (g : pgen) : res (list (string * string)) :=
+    do e <- Generators.concat_res
+              (map (fun c => Generators.env_lines true (Generators.scan_lines EmptyString c)) (pg_envs g));
+    do l <- mapM Generators.parse_literal (pg_literals g);
+    do f <- mapM (fun sc => do kp <- Generators.parse_file_source (fst sc); Ok (fst kp, snd sc)) (pg_files g);
+    Ok (e ++ l ++ f)%list.
+
+  (* generators.MakeConfigMap / MakeSecret (makeBaseNode, type, data, copyLabelsAndAnnotations) *)
   Definition gen_node (secret : bool) (g : pgen) : res node :=
     if String.eqb (pg_name g) "" then Err else
-    do kvs <- mapM Generators.parse_literal (pg_literals g);
+    do kvs <- gen_pairs g;
     do m <- Generators.validated_map kvs [];
-    if negb secret && negb (forallb (fun kv => Hash.valid_utf8 (snd kv)) m) then Err (* binaryData: out of scope *) else
     let labels := if pg_has_opts g then pg_labels g else [] in
     let annos := if pg_has_opts g then pg_annos g else [] in
     let meta := ([("name", str_node (pg_name g))] ++
@@ -178,10 +203,10 @@ Section Pipeline.
     match go with
     | None => g
     | Some o =>
-        mkPGen (pg_name g) (pg_ns g) (pg_behavior g) (pg_literals g) (pg_type g) true
-               (merge_pairs (if pg_has_opts g then pg_labels g else []) (go_labels o))
-               (merge_pairs (if pg_has_opts g then pg_annos g else []) (go_annos o))
-               ((pg_has_opts g && pg_disable_hash g) || go_disable_hash o)
+        mkPGenX (pg_name g) (pg_ns g) (pg_behavior g) (pg_literals g) (pg_type g) true
+                (merge_pairs (if pg_has_opts g then pg_labels g else []) (go_labels o))
+                (merge_pairs (if pg_has_opts g then pg_annos g else []) (go_annos o))
+                ((pg_has_opts g && pg_disable_hash g) || go_disable_hash o) (pg_envs g) (pg_files g)
     end.
 
   (* ----- resWrangler.appendReplaceOrMerge ----- *)
@@ -360,6 +385,64 @@ Section Pipeline.
     | (p, fss) :: t => do m' <- label_transform p fss m; label_transforms t (drop_empties m')
     end.
 
+  (* ReplicaCountTransformerPlugin.Transform (one plugin per `replicas:` entry, field specs tc.Replicas): per field
+     spec the resources matched by ANY id (name + Gvk.IsSelected) are collected first, then the filter
+     (Res/Replica.replica_filter) runs on each; an entry that matches nothing is an error *)
+  Definition replica_hits (rp : Replica.replica) (fs : fieldspec) (r : resource) : res bool :=
+    if nil_or_empty (r_node r) then Ok false else
+    do prev <- prev_ids r;
+    Ok (existsb (fun id => String.eqb (id_name id) (Replica.rp_name rp) && gvk_is_selected (id_gvk id) (fsgvk fs))
+                (prev ++ [cur_id pipe_cs r])%list).
+
+  Fixpoint replica_apply (rp : Replica.replica) (fs : fieldspec) (m : list resource) (hits : list bool)
+    : res (list resource) :=
+    match m, hits with
+    | r :: t, h :: ht =>
+        do r' <- (if h then do n <- Replica.replica_filter rp fs (r_node r); Ok (with_node r n) else Ok r);
+        do t' <- replica_apply rp fs t ht;
+        Ok (r' :: t')
+    | _, _ => Ok m
+    end.
+
+  Fixpoint replica_loop (rp : Replica.replica) (fss : list fieldspec) (found : bool) (m : list resource)
+    : res (bool * list resource) :=
+    match fss with
+    | [] => Ok (found, m)
+    | fs :: t =>
+        do hits <- mapM (replica_hits rp fs) m;
+        do m' <- replica_apply rp fs m hits;
+        replica_loop rp t (found || existsb (fun b => b) hits) m'
+    end.
+
+  Definition replica_transform (rp : Replica.replica) (m : list resource) : res (list resource) :=
+    do r <- replica_loop rp gen_replicas_fs false m;
+    if fst r then Ok (snd r) else Err.
+
+  Fixpoint replicas_transform (rps : list Replica.replica) (m : list resource) : res (list resource) :=
+    match rps with
+    | [] => Ok m
+    | rp :: t => do m' <- replica_transform rp m; replicas_transform t (drop_empties m')
+    end.
+
+  (* ImageTagTransformerPlugin.Transform (one plugin per `images:` entry, field specs tc.Images): the legacy filter
+     over every resource, then the field-spec filter over every resource (Res/Image.v).  The compiled pattern is the
+     one the code builds for the (quoted) entry name: [Image.img_re], the shape C10 checks against Go's parser. *)
+  Definition img_parse (name : string) (pat : string) : option Regex.re :=
+    match Image.img_pattern name with
+    | Some p => if String.eqb p pat then Some (Image.img_re name) else None
+    | None => None
+    end.
+
+  Definition image_transform (im : Image.image) (m : list resource) : res (list resource) :=
+    do m1 <- map_nodes (Image.legacy_filter (img_parse (Image.im_name im)) im) m;
+    map_nodes (Image.image_fs_filter (img_parse (Image.im_name im)) im gen_images_fs) m1.
+
+  Fixpoint images_transform (ims : list Image.image) (m : list resource) : res (list resource) :=
+    match ims with
+    | [] => Ok m
+    | im :: t => do m' <- image_transform im m; images_transform t (drop_empties m')
+    end.
+
   Definition label_dirs (d : pdirs) : Labels.dirs :=
     Labels.mkDirs (pd_labels d) (pd_common_labels d) (pd_common_annos d).
 
@@ -374,6 +457,8 @@ Section Pipeline.
       do lts <- Labels.label_transformers LabelsDefaults.default_tc (label_dirs d); label_transforms lts m
     else if String.eqb k "AnnotationsTransformer" then
       label_transform (pd_common_annos d) gen_common_annotations_fs m
+    else if String.eqb k "ReplicaCountTransformer" then replicas_transform (pd_replicas d) m
+    else if String.eqb k "ImageTagTransformer" then images_transform (pd_images d) m
     else Ok m.
 
   (* runTransformers: configureBuiltinTransformers (every configurator runs first: a label field-spec merge
@@ -396,7 +481,8 @@ Section Pipeline.
     String.eqb (pd_ns d) "" && String.eqb (pd_prefix d) "" && String.eqb (pd_suffix d) "" &&
     match pd_labels d, pd_common_labels d, pd_common_annos d with [], [], [] => true | _, _, _ => false end &&
     match pd_cmgens d, pd_secgens d with [], [] => true | _, _ => false end &&
-    match pd_genopts d with None => true | Some _ => false end.
+    match pd_genopts d with None => true | Some _ => false end &&
+    match pd_replicas d, pd_images d with [], [] => true | _, _ => false end.
   Definition is_empty_kust (d : pdirs) (ents : list ptree) : bool :=
     match ents with [] => dirs_empty d | _ => false end.
 
